@@ -45,6 +45,13 @@ def make_dataset(ds):
         d['A'] = [arr(ds, 'A', 1), None, arr(ds, 'A', 3)]
         d['B'] = [None, arr(ds, 'B', 2), arr(ds, 'B', 3)]
         d['T2'] = [arr(ds, 'T2', i) for i in its]
+    elif ds == 4:     # other dtypes, same shapes and iterations as ds 0
+        its = [0, 1, 2]
+        d = {'it': list(its), 't': [int(3 + i) for i in its]}
+        d['A'] = [(arr(ds, 'A', i) * 0 + 7 + i).astype(np.int64)
+                  for i in its]
+        d['B'] = [arr(ds, 'B', i).astype(np.float32) for i in its]
+        d['T2'] = [(arr(ds, 'T2', i) % 3 == 0) for i in its]      # bool
     else:             # a whole column None, no time column
         its = [0, 3]
         d = {'it': list(its)}
@@ -75,7 +82,7 @@ def var_selection(how):
 
 def ops_full():
     out = []
-    for ds in range(4):
+    for ds in range(5):
         for isel in IT_SELECT:
             for vsel in VAR_SELECT:
                 for rl in (0, 1):
@@ -85,7 +92,7 @@ def ops_full():
 
 def ops_reduced():
     out = []
-    for ds in range(4):
+    for ds in range(5):
         for isel in ('all', 'second', 'last_first'):
             for vsel, rl in (('all', 0), ('A', 0), ('BA', 1)):
                 out.append(('save', ds, isel, vsel, rl))
@@ -94,7 +101,7 @@ def ops_reduced():
 
 def ops_small():
     out = []
-    for ds in range(4):
+    for ds in range(5):
         for isel in ('all', 'second'):
             for vsel, rl in (('all', 0), ('A', 1)):
                 out.append(('save', ds, isel, vsel, rl))
@@ -112,8 +119,8 @@ def snapshot(obj):
     return ('val', repr(obj))
 
 
-PROBE_ITS = ([0], [1, 2], [3, 10, 7], [2, 0, 1, 3], [7, 5], [10, 10, 3])
-PROBE_VARS = ([], ['A'], ['B', 'T2'], ['A', 'Z'])
+PROBE_ITS = ([0], [1, 2], [3, 10, 7, 5], [2, 0, 1, 3, 3])
+PROBE_VARS = ([], ['A'], ['B', 'T2', 'Z'])
 
 
 class System:
@@ -227,6 +234,7 @@ class System:
                 viol.append((f"C13:file-unexpected-dataset:{tag}",
                              f"{key} on disk but never saved"))
             elif (disk[key].shape != self.model[key].shape
+                  or disk[key].dtype != self.model[key].dtype
                   or not np.array_equal(disk[key], self.model[key])):
                 viol.append((f"C13:file-wrong-data:{tag}",
                              f"dataset {key} holds "
@@ -299,6 +307,7 @@ class System:
                                              f"({j},{v},rl={rl}) saved "
                                              "but read None"))
                             elif (np.shape(val) != ref.shape or
+                                  np.asarray(val).dtype != ref.dtype or
                                   not np.array_equal(val, ref)):
                                 viol.append((
                                     f"C13:read-wrong-data:{tag}",
@@ -331,7 +340,8 @@ def main(tier):
     per = {}
     plans = []
     if tier == 'quick':
-        plans = [('slash', ops_full(), 2), ('noslash', ops_reduced(), 2),
+        quick_full = [o for o in ops_full() if o[3] != 'BA']
+        plans = [('slash', quick_full, 2), ('noslash', ops_reduced(), 2),
                  ('et', ops_reduced(), 2), ('slash', ops_small(), 3)]
     else:
         plans = [('slash', ops_full(), 3), ('noslash', ops_full(), 2),
@@ -375,6 +385,8 @@ def replay(rec):
     label = c['label']
     _STYLE = label.split('/')[0]
     nops = int(label.split('ops=')[1].split('/')[0])
-    ops = {len(o): o for o in (ops_full(), ops_reduced(), ops_small())}[nops]
+    ops = {len(o): o for o in (ops_full(), ops_reduced(), ops_small(),
+                               [o for o in ops_full() if o[3] != 'BA'])
+           }[nops]
     v = explorer.replay_history(factory, ops, c['history_idx'])
     return 1 if v else 0
